@@ -44,6 +44,12 @@ pub(crate) struct FileLoader<'data> {
     /// The files that we've loaded so far.
     pub(crate) loaded_files: Vec<&'data InputFile>,
 
+    /// Files that we read, but which don't themselves provide input sections or symbols: thin
+    /// archive indexes, version scripts and export lists. A change to one of them while we're
+    /// running, or later, matters as much as a change to an object, so they're checked by
+    /// `verify_inputs_unchanged` and listed in the dependency file.
+    pub(crate) other_files_read: Vec<&'data InputFile>,
+
     /// Whether we have at least one input file that is a dynamic object.
     pub(crate) has_dynamic: bool,
 
@@ -187,7 +193,11 @@ struct LoadedFile<'data, P: Platform> {
 enum LoadedFileState<'data, P: Platform> {
     Loaded(&'data InputFile, InputRecord<'data, P>),
     Archive(&'data InputFile, Vec<InputRecord<'data, P>>),
-    ThinArchive(Vec<&'data InputFile>, Vec<InputRecord<'data, P>>),
+    ThinArchive(
+        &'data InputFile,
+        Vec<&'data InputFile>,
+        Vec<InputRecord<'data, P>>,
+    ),
     LinkerScript(LoadedLinkerScriptState<'data>),
     Error(Error),
 }
@@ -244,7 +254,7 @@ pub(crate) struct AuxiliaryFiles<'data> {
 impl<'data> AuxiliaryFiles<'data> {
     pub(crate) fn new(
         args: &'data impl platform::Args,
-        inputs_arena: &'data Arena<InputFile>,
+        file_loader: &mut FileLoader<'data>,
     ) -> Result<Self> {
         let resolve_script_path = |path: &Path| -> PathBuf {
             if path.exists() {
@@ -259,11 +269,11 @@ impl<'data> AuxiliaryFiles<'data> {
         Ok(Self {
             version_script_data: args
                 .version_script_path()
-                .map(|path| read_script_data(&resolve_script_path(path), inputs_arena))
+                .map(|path| read_script_data(&resolve_script_path(path), file_loader))
                 .transpose()?,
             export_list_data: args
                 .export_list_path()
-                .map(|path| read_script_data(&resolve_script_path(path), inputs_arena))
+                .map(|path| read_script_data(&resolve_script_path(path), file_loader))
                 .transpose()?,
         })
     }
@@ -273,6 +283,7 @@ impl<'data> FileLoader<'data> {
     pub(crate) fn new(inputs_arena: &'data Arena<InputFile>) -> Self {
         Self {
             loaded_files: Vec::new(),
+            other_files_read: Vec::new(),
             inputs_arena,
             has_dynamic: false,
         }
@@ -340,6 +351,14 @@ impl<'data> FileLoader<'data> {
         self.extract_all(&mut files_by_index, plugin)
     }
 
+    /// All the files whose contents we read.
+    pub(crate) fn files_read(&self) -> impl Iterator<Item = &'data InputFile> {
+        self.loaded_files
+            .iter()
+            .chain(&self.other_files_read)
+            .copied()
+    }
+
     /// Checks that the modification timestamp on all our input files hasn't changed since we opened
     /// them. If they were modified while we were running, then we may fail with a SIGBUS if we try
     /// to access part of the file that's no longer there, however if we don't, then we may have
@@ -347,7 +366,9 @@ impl<'data> FileLoader<'data> {
     pub(crate) fn verify_inputs_unchanged(&self) -> Result {
         timing_phase!("Verify inputs unchanged");
 
-        self.loaded_files.par_iter().try_for_each(|file| {
+        let files = self.files_read().collect::<Vec<_>>();
+
+        files.par_iter().try_for_each(|file| {
             let Some(file_data) = &file.data else {
                 return Ok(());
             };
@@ -418,8 +439,9 @@ impl<'data> FileLoader<'data> {
                 loaded.add_records(parsed_parts, plugin);
                 self.loaded_files.push(input_file);
             }
-            Some(LoadedFileState::ThinArchive(mut input_files, parsed_parts)) => {
+            Some(LoadedFileState::ThinArchive(index_file, mut input_files, parsed_parts)) => {
                 loaded.add_records(parsed_parts, plugin);
+                self.other_files_read.push(index_file);
                 self.loaded_files.append(&mut input_files);
             }
             Some(LoadedFileState::LinkerScript(loaded_linker_script_state)) => {
@@ -514,7 +536,7 @@ fn process_archive<'data, P: Platform>(
 }
 
 fn process_thin_archive<'data, P: Platform>(
-    input_file: &InputFile,
+    input_file: &'data InputFile,
     state: &TemporaryState<'data, P>,
 ) -> Result<LoadedFileState<'data, P>> {
     let absolute_path = &input_file.filename;
@@ -564,7 +586,11 @@ fn process_thin_archive<'data, P: Platform>(
         }
     }
 
-    Ok(LoadedFileState::ThinArchive(files, parsed_files))
+    Ok(LoadedFileState::ThinArchive(
+        input_file,
+        files,
+        parsed_files,
+    ))
 }
 
 impl<'data, P: Platform> TemporaryState<'data, P> {
@@ -726,16 +752,18 @@ impl<'data, P: Platform> TemporaryState<'data, P> {
 
 fn read_script_data<'data>(
     path: &Path,
-    inputs_arena: &'data Arena<InputFile>,
+    file_loader: &mut FileLoader<'data>,
 ) -> Result<ScriptData<'data>> {
     let data = FileData::new(path, false).context("Failed to read script")?;
 
-    let file = inputs_arena.alloc(InputFile {
+    let file = &*file_loader.inputs_arena.alloc(InputFile {
         filename: path.to_owned(),
         original_filename: path.to_owned(),
         modifiers: Default::default(),
         data: Some(data),
     });
+
+    file_loader.other_files_read.push(file);
 
     Ok(ScriptData { raw: file.data() })
 }
